@@ -53,13 +53,13 @@ type Hostile struct {
 }
 
 type Case struct {
-	Hostile *Hostile `json:"hostile,omitempty"`
-	N     int                `json:"n"`
-	Mgr   scen.MgrOpts       `json:"mgr"`
-	Cfg   []int              `json:"cfg"`
-	Call  scen.CallSpec      `json:"call"`
-	Nodes map[int]NodeScript `json:"nodes"`
-	Steps []Step             `json:"steps"`
+	Hostile *Hostile           `json:"hostile,omitempty"`
+	N       int                `json:"n"`
+	Mgr     scen.MgrOpts       `json:"mgr"`
+	Cfg     []int              `json:"cfg"`
+	Call    scen.CallSpec      `json:"call"`
+	Nodes   map[int]NodeScript `json:"nodes"`
+	Steps   []Step             `json:"steps"`
 }
 
 var corrKinds = []string{"Corr", "CorrPerNode", "CorrCustom", "CorrCombo", "CorrStream", "CorrStreamPerNode", "CorrStreamCustom", "CorrStreamCombo"}
@@ -495,7 +495,7 @@ func run(c Case) vt.Verdict {
 	nextGate := map[int]int{} // stream: next gate index per node
 	bursts := false
 	_ = bursts
-	answeredReplies := 0      // replies that have been released so far (each causes one quorum-function invocation while the call is live)
+	answeredReplies := 0 // replies that have been released so far (each causes one quorum-function invocation while the call is live)
 	exitsExpected := map[int]bool{}
 	stopped := map[int]bool{} // servers stopped by a step: the node has failed (if it had not answered before)
 	lastLevel := gorums.LevelNotSet
@@ -854,7 +854,7 @@ func classes(c Case, m model, nonMonotone, ctxBetween bool) []string {
 func TestProp(t *testing.T) {
 	vt.Main(t, vt.Spec[Case]{
 		ID:           "C11",
-		Rule:         "rapid-generated cases: a correctable or server-stream correctable call (plain, per-node, custom return type, both) on 1-5 nodes; per node a reply / error / silence (streams: 0-4 individually gated replies, then failure, normal end or silence); a level script mapping the invocation index to (level, done) with levels 0..8 and, in an eighth of the rows, an extreme (LevelNotSet = -1, -7, 2^40) - arbitrary, non-monotone, repeated, done anywhere or nowhere; an optional cancellation at any position; in a quarter of the cases one node's server is stopped at a generated position (before it answered: the node has failed; after it answered: the call must not hear of the node again); Watch(l) channels created at generated moments; after every step the correctable is observed (Get, typed Get under recover, Done, all watchers) and compared with a reference model driven by the recorded quorum-function invocations: publish on strictly higher level, final on done / exhaustion / context end, watchers at or below the published level released and the others open, nothing changes after completion, levels never decrease; non-trivial = at least 2 distinct published levels before completion, or a non-monotone script, or a custom return type, or a context end between two publications",
+		Rule:         "rapid-generated cases: a correctable or server-stream correctable call (plain, per-node, custom return type, both) on 1-5 nodes; per node a reply / error / silence (streams: 0-4 individually gated replies, then failure, normal end or silence); a level script mapping the invocation index to (level, done) with levels 0..8 and, in an eighth of the rows, an extreme (LevelNotSet = -1, -7, 2^40) - arbitrary, non-monotone, repeated, done anywhere or nowhere; an optional cancellation at any position; in a quarter of the cases one node's server is stopped at a generated position (before it answered: the node has failed; after it answered: the call must not hear of the node again); Watch(l) channels created at generated moments; after every step the correctable is observed (Get, typed Get under recover, Done, all watchers) and compared with a reference model driven by the recorded quorum-function invocations: publish on strictly higher level, final on done / exhaustion / context end, watchers at or below the published level released and the others open, nothing changes after completion, levels never decrease; non-trivial = at least 2 distinct published levels before completion, or a non-monotone script, or a custom return type, or a context end between two publications; in a quarter of the cases answers are released in bursts (no_wait) behind a quorum function that takes 1-3 ms, and a plain correctable that ends Incomplete must count exactly the replies its quorum function was shown; a second shape (a twelfth of the cases): server 0 is a raw grpc server that answers a server-stream correctable with 1-5 frames, each well-formed or naming another method, the other nodes healthy and silent - the call must not complete before they have failed too and must then end Incomplete",
 		Gen:          gen,
 		Run:          run,
 		TrackCurrent: true,
